@@ -18,6 +18,7 @@ KindPool ==
      (IF "config" \in KindSet THEN {[k |-> "config", fn |-> f, slots |-> NSlots] : f \in 1..NFns}
       ELSE {})
   \cup (IF "partial" \in KindSet THEN {[k |-> "partial", fn |-> 1, slots |-> NSlots]} ELSE {})
+  \cup (IF "argfactory" \in KindSet THEN {[k |-> "argfactory", fn |-> 4, slots |-> NSlots]} ELSE {})
   \cup (IF "list" \in KindSet THEN {[k |-> "list", fn |-> 0, slots |-> 0]} ELSE {})
   \cup (IF "tuple" \in KindSet THEN {[k |-> "tuple", fn |-> 0, slots |-> 0]} ELSE {})
   \cup (IF "dict" \in KindSet THEN {[k |-> "dict", fn |-> 0, slots |-> 0]} ELSE {})
